@@ -605,6 +605,18 @@ def reorg_inv(F):
                     break
     if loop_body is None:
         raise CheckError("anchor changed: reorganise_generic has no for loop")
+    # the loop index by role: the first component of the enumerate() pair
+    for m in walk(fn["body"]):
+        if m.get("k") == "Match" and m.get("src") == "ForLoopDesugar":
+            for lp in walk(m["arms"][0]["body"]):
+                if lp.get("k") == "Match" and lp is not m:
+                    for arm in lp["arms"]:
+                        if arm["pat"].get("variant") == "Some":
+                            inner = arm["pat"]["pats"][0] if arm["pat"].get("pats") else arm["pat"]["fields"][0][1]
+                            if inner.get("k") == "Tuple" and inner["pats"] and inner["pats"][0].get("k") == "Binding":
+                                rename[inner["pats"][0]["name"]] = "idx"
+                    break
+            break
 
     # Case analysis on the one fact the bookkeeping depends on: does the element sit inside the original import prefix
     # (A: idx < orig_num_imported)?  For A = true and A = false separately, every path through one iteration is enumerated
